@@ -162,9 +162,9 @@ def separator_choice_on_binary(ctx, rng, count):
     broken = ["1 +", "x = ", ")", "5 as", "delete 3", "1 2", "f(a+1) = 2"]
     bad = n = 0
     POSRE = re.compile(r"Line \d+, Column \d+")
-    SEPRE = re.compile(r"found '(\\\\n|\\n|;)'")
+    SEPRE = re.compile(r"'(\\\\n|\\n|;)'")        # the quoted delimiter lexeme, whatever words surround it
     def norm(t):
-        return SEPRE.sub("found <sep>", POSRE.sub("Line _, Column _", t))
+        return SEPRE.sub("<sep>", POSRE.sub("Line _, Column _", t))
     for lines in props.statement_programs(rng, count, faulty=0.2):
         lines = [l for l in lines if "[" not in l][:6] or ["1"]
         if n % 2 == 0:
